@@ -1533,6 +1533,9 @@ class Interp(object):
         try:
             iterator = iter(it)
         except TypeError:
+            if _is_model_value(it):
+                # a contract-side stand-in that only supports what its contract models: never a verdict
+                raise Unsupported("iteration over model object %s" % type(it).__name__)
             raise ProgExc(TypeError, "not iterable")
         while True:
             try:
